@@ -357,10 +357,14 @@ func (propC18) Check(t *testing.T, p *Plan, st *Stats) *Violation {
 	}
 	var first *Outcome
 	var firstRender string
+	pressure := 0
 	if n := p.Tags["cache_pressure"]; n != "" {
-		var cnt int
-		fmt.Sscan(n, &cnt)
-		c18Pressure(t, p, cnt, st)
+		fmt.Sscan(n, &pressure)
+		if p.Run%2 == 0 {
+			// before the first evaluation: a polluted process against a fresh one
+			c18Pressure(t, p, pressure, st)
+			pressure = 0
+		}
 		if st != nil {
 			st.Probe("evaluated_under_cache_pressure")
 		}
@@ -402,6 +406,12 @@ func (propC18) Check(t *testing.T, p *Plan, st *Stats) *Violation {
 			continue
 		}
 		render := o.Result.Render()
+		if first == nil && pressure > 0 {
+			// between the first evaluation and the repetitions: what was cached for
+			// this query is evicted (or is supposed to be) before it runs again
+			c18Pressure(t, p, pressure, st)
+			pressure = 0
+		}
 		if first == nil {
 			first, firstRender = o, render
 			if st != nil {
